@@ -381,4 +381,25 @@ mod verif_result {
     fn lifecycle_plain_plain() { lifecycle::<Plain, Plain>(); }
     #[kani::proof]
     fn lifecycle_glue_glue() { lifecycle::<Tok, Tok>(); }
+
+    /// zero-sized payload WITH drop glue (a guard / token type): size_of == 0 says nothing about whether a value must be dropped
+    struct ZTok;
+    impl Drop for ZTok {
+        fn drop(&mut self) {
+            unsafe {
+                DROPS += 1;
+            }
+        }
+    }
+    impl Payload for ZTok {
+        const GLUE: u32 = 1;
+        fn make(_: u8) -> Self { ZTok }
+        fn id(&self) -> u8 { 0 }
+    }
+    #[kani::proof]
+    fn lifecycle_unit_ok_zst_glue_err() { lifecycle::<(), ZTok>(); }
+    #[kani::proof]
+    fn lifecycle_zst_glue_ok_unit_err() { lifecycle::<ZTok, ()>(); }
+    #[kani::proof]
+    fn lifecycle_plain_ok_zst_glue_err() { lifecycle::<Plain, ZTok>(); }
 }
